@@ -62,6 +62,7 @@ def generate(repo="/repo", only=None, props=None, exact=False):
             rec["obligations"] = v.obligations
             rec["covers"] = v.covers
             rec["npaths"] = v.npaths
+            rec["feas"] = (getattr(v, "n_retried", 0), getattr(v, "n_unknown", 0), round(getattr(v, "t_retried", 0.0), 1))
         except AnchorError as exc:
             rec["status"] = "anchor_error"
             rec["error"] = str(exc)
@@ -245,7 +246,7 @@ def _gen_worker(job):
                 sv.add(c)
             covers.append((site, sv.to_smt2()))
         out.append({"name": r["name"], "status": r["status"], "error": r["error"],
-                    "npaths": r.get("npaths", 0), "gen_s": r["gen_s"],
+                    "npaths": r.get("npaths", 0), "gen_s": r["gen_s"], "feas": r.get("feas"),
                     "fi": None if r["fi"] is None else describe(r["fi"], index),
                     "props": list(r["contract"].props), "obligations": ser, "covers": covers})
     return out
@@ -344,7 +345,7 @@ def summarize(reg, recs, obligations, res, covers, props=None, ledger=None):
     return {"obligations": out, "functions": functions, "engine_error": engine_error,
             "covers": {"sites": len(covers), "reachable": sum(1 for v in covers.values() if v == "sat"),
                        "undecided": sum(1 for v in covers.values() if v not in ("sat", "unsat")),
-                       "unreachable": dead},
+                       "unreachable": dead, "status_by_site": dict(covers)},
             "assumptions": [], "delegated_to_bounded": []}
 
 
@@ -496,7 +497,7 @@ def main(argv):
     for r in recs:
         print("%-70s %-12s paths=%-4s obligations=%-4d gen=%.1fs %s" % (
             r["name"], r["status"], r["npaths"], len(r["obligations"]), r["gen_s"],
-            (r["error"] or "")[:300]))
+            (r["error"] or "")[:300]) + (" feas-retries=%s" % (r.get("feas"),) if r.get("feas") and r["feas"][0] else ""))
     bad = 0
     for ob, rs in zip(obligations, res):
         if a.props and not (set(ob["props"]) & set(a.props)):
